@@ -228,6 +228,27 @@ def run(ctx):
                             r1.violation("%s:snprintf:truncation" % f.name,
                                          "success is returned although %s < %s is not established: a truncated address can be reported as success"
                                          % (rcvar, B.show_lin(cap)), loc=f.loc(e))
+                    elif m["k"] == "return" and m.get("sub") is not None and f.sn(m["sub"])["k"] == "call" and not (b == wb and i < wi):
+                        # `return check_printed_len(rc, capacity);` - the truncation test lives in a helper of this file:
+                        # its own success returns must imply <rc parameter> < <capacity parameter>
+                        cn = f.sn(m["sub"])
+                        for d in P.callees(f, cn["id"])[0]:
+                            if not (d.static and d.file == f.file):
+                                continue
+                            ri = [k_ for k_, a in enumerate(cn["args"]) if fb.term(a) == rcvar or f.show(f.strip(a)) == rcvar]
+                            ci = [k_ for k_, a in enumerate(cn["args"]) if fb.lin(a) is not None and fb.lin(a) == cap]
+                            if len(ri) != 1 or len(ci) != 1 or max(ri[0], ci[0]) >= len(d.params):
+                                continue
+                            fbd = B.FnBounds(eng, d)
+                            rp, cp = d.params[ri[0]]["name"], d.params[ci[0]]["name"]
+                            for e2, m2 in d.nodes.items():
+                                if m2["k"] == "return" and m2.get("sub") is not None and C.const_of(d, m2["sub"]) == 0:
+                                    nsucc += 1
+                                    if fbd.prove_le(fbd.before.get(e2, B.Facts()), B.lin_add(B.lin_term(rp), B.lin_const(1)), B.lin_term(cp)):
+                                        r1.ok("%s: success of %s implies %s < %s" % (f.name, d.name, rp, cp), "facts on the helper's success path")
+                                    else:
+                                        r1.violation("%s:snprintf:truncation" % f.name, "%s reports success although %s < %s is not established: a truncated address "
+                                                     "can be reported as success" % (d.name, rp, cp), loc=d.loc(e2))
             if nsucc == 0:
                 raise Broken("C12.R1: no success return after snprintf in %s" % f.name)
     r1.floor(4, "snprintf sites into caller buffers")
@@ -314,7 +335,7 @@ def run(ctx):
         K, capi = None, None
         for b, cond in C.cond_blocks(f):
             l, op, r = C.cond_atom(f, cond, True)
-            ln = f.sn(l)
+            ln = f.nodes[f.origin(l)] if not isinstance(l, tuple) else {"k": None}
             if not (ln["k"] == "call" and ln.get("callee") == "strlen") or isinstance(r, tuple):
                 continue
             cv = C.const_of(f, r)
